@@ -226,7 +226,7 @@ func (in *Interp) equals(t types.Type, x, y value) value {
 	// Since map, func and slice don't support comparison, this
 	// case is only reachable if one of x or y is literally nil
 	// (handled in eqnil) or via interface{} values.
-	panic(targetPanic{in.runtimeError(fmt.Sprintf("comparing uncomparable type %s", t))})
+	panic(targetPanic{v: in.runtimeError(fmt.Sprintf("comparing uncomparable type %s", t))})
 }
 
 // load returns the value of type T in *addr.
